@@ -156,10 +156,13 @@ def collect(prop, tier):
             raise vlib.Infra("no scripts generated")
         obs = os.path.join(sc, "obs.ndjson")
         # two passes: the dial back-off scaled to 2 % (dials rarely collide) and to zero (both hubs dial at once: double connections)
-        s20 = [s for i, s in enumerate(scripts) if s["fam"].startswith("wrong") or i % 2 == 0]
-        s0 = [s for i, s in enumerate(scripts) if not (s["fam"].startswith("wrong") or i % 2 == 0)]
+        # and a third: one processor only (GOMAXPROCS=1) - a goroutine the library starts does not run before its creator
+        # blocks, so bursts of reports and their delayed notification goroutines interleave differently
+        s20 = [s for i, s in enumerate(scripts) if s["fam"].startswith("wrong") or i % 3 == 0]
+        s0 = [s for i, s in enumerate(scripts) if not s["fam"].startswith("wrong") and i % 3 == 1]
+        s0p1 = [s for i, s in enumerate(scripts) if not s["fam"].startswith("wrong") and i % 3 == 2]
         parts = []
-        for tag, scale, part in (("s20", "20", s20), ("s0", "0", s0)):
+        for tag, scale, part in (("s20", "20", s20), ("s0", "0", s0), ("s0p1", "0", s0p1)):
             if not part:
                 continue
             pp = os.path.join(sc, "scripts-%s.ndjson" % tag)
@@ -167,14 +170,15 @@ def collect(prop, tier):
                 for s in part:
                     f.write(json.dumps(s) + "\n")
             po = os.path.join(sc, "obs-%s.ndjson" % tag)
-            rc, out = vlib.run([binp, "-scripts", pp, "-obs", po, "-par", "24", "-scale", scale], timeout=6000)
+            env = dict(vlib.GOENV, GOMAXPROCS="1") if tag == "s0p1" else None
+            rc, out = vlib.run([binp, "-scripts", pp, "-obs", po, "-par", "8" if tag == "s0p1" else "24", "-scale", scale], timeout=6000, env=env)
             if rc != 0:
                 crash = vlib.library_crash(out)
                 if crash:
                     path = vlib.save_replay(prop, "process-crash", dict(property=prop, key=["process-crash", crash], output_tail=out[-6000:]))
                     vlib.finish(prop, [("process-crash/" + crash, path)], {}, [])
                 raise vlib.Infra("harness hub2 failed:\n" + out[-3000:])
-            print("back-off scale %s permille:" % scale, out.strip().splitlines()[-1])
+            print("back-off scale %s permille%s:" % (scale, ", one processor" if tag == "s0p1" else ""), out.strip().splitlines()[-1])
             parts.append(po)
         with open(obs, "w") as f:
             for po in parts:
